@@ -423,6 +423,24 @@ def rust_cdylib_linked(p: Project) -> None:
                 ('c_on_rcore', 'meson-test-prereq'), ('r_on_rcore', 'meson-test-prereq')]
 
 
+@entry('rust-module-test-generated', ['rustc'], [{'buildtype': 'debug'}], {'buildtype': ['debug', 'release']},
+       'modules/rust.py test_common(): the test executable is a second target built from the library\'s sources, generated ones included',
+       'rust.test() of a static library that include!()s a custom_target output listed among its sources, the library having a dependencies: entry')
+def rust_module_test_generated(p: Project) -> None:
+    L = head(p, ['rust'])
+    L.append("rust = import('rust')")
+    L.append(f"rgen = custom_target('rgen', input: 'gen.rs.in', output: 'gen.rs', {COPY})")
+    L.append("libm = declare_dependency(link_args: ['-lm'])")
+    L.append("lib = static_library('mylib', 'mylib.rs', rgen, dependencies: libm)")
+    L.append("rust.test('mylib_test', lib)")
+    # (the harnesses configure <case>/src into <case>/bld: the generated file is reached by a relative path)
+    p.files['mylib.rs'] = ('include!("../bld/gen.rs");\npub fn twice() -> i32 { answer() * 2 }\n'
+                           '#[cfg(test)]\nmod tests {\n    #[test]\n    fn doubled() { assert_eq!(super::twice(), 84); }\n}\n')
+    p.files['gen.rs.in'] = 'pub fn answer() -> i32 { 42 }\n'
+    p.files['meson.build'] = '\n'.join(L) + '\n'
+    p.expect = [('libmylib.rlib', 'all'), ('mylib_test', 'meson-test-prereq')]
+
+
 # ---------------------------------------------------------------------------
 # Java
 
@@ -756,6 +774,23 @@ def generator_depends_per_call(p: Project) -> None:
     p.files['main.c'] = 'int gp_a(void);\nint gp_b(void);\nint main(void) { return gp_a() + gp_b() - 42; }\n'
     p.files['meson.build'] = '\n'.join(L) + '\n'
     p.expect = [('gpc', 'all'), ('gpc', 'meson-test-prereq')]
+
+
+@entry('genlist-shared-with-custom-target', ['gcc'], [{'layout': 'mirror'}], {'layout': LAYOUT, 'unity': UNITY},
+       'generate_genlist_for_target via custom_target_generator_inputs: one process() result feeding a build target and custom targets',
+       'the same generator.process() result compiled into an executable and taken as input: by two custom targets declared after it')
+def genlist_shared_with_custom_target(p: Project) -> None:
+    L = head(p, ['c'])
+    L.append("g = generator(gen, output: '@BASENAME@.c', arguments: ['--copy', '@INPUT@', '@OUTPUT@'])")
+    L.append("tables = g.process('gl_tables.tpl')")
+    L.append("exe = executable('gl', 'main.c', tables)")
+    L.append("pack = custom_target('srcpack', input: tables, output: 'srcpack.txt', command: [gen, '--copy', '@INPUT@', '@OUTPUT@'], build_by_default: true)")
+    L.append("pack2 = custom_target('srcpack2', input: tables, output: 'srcpack2.txt', command: [gen, '--copy', '@INPUT@', '@OUTPUT@'], build_by_default: true)")
+    L.append("test('gl', exe)")
+    p.files['gl_tables.tpl'] = 'int gl_value(void) { return 42; }\n'
+    p.files['main.c'] = 'int gl_value(void);\nint main(void) { return gl_value() - 42; }\n'
+    p.files['meson.build'] = '\n'.join(L) + '\n'
+    p.expect = [('gl', 'all'), ('srcpack.txt', 'all'), ('srcpack2.txt', 'all'), ('gl', 'meson-test-prereq')]
 
 
 @entry('generator-built-exe', ['gcc'], [{'layout': 'mirror'}], {'layout': LAYOUT, 'unity': UNITY},
